@@ -1,5 +1,6 @@
 import Mc.Drv.Common
 import Mc.Spec.C05
+import Mc.Proofs.C05Hyps
 namespace Mc.Drv
 open Mc.C05
 
@@ -58,11 +59,15 @@ def handleMerge (c : J) : Res := Id.run do
     else
       if !(contains res d) then r := fail r "C05" "contains: a desired field does not have the desired value"
       if !(laws mks res o l d) then r := fail r "C05" "removed/preserved law broken"
+      -- idempotence is claimed (theorem C05_idempotent) when the result again satisfies the hypothesis
+      -- and desired holds no null over an observed list; the latter shape is recorded finding F-C05-1
       let out2 := c.getD "out2"
-      if outKind out2 != "ok" then r := fail r "C05" "idempotence: second application failed"
-      else if !((out2.getD "ok").eqv res) then
-        r := fail r "C05" "idempotence: re-applying desired changed the result"
-        if nullOverEmptiedList res o d then r := { r with finding := "F-C05-1" }
+      let broken := outKind out2 != "ok" || !((out2.getD "ok").eqv res)
+      if hypJ mks res || !(noNullOverArr o d) then
+        if broken then
+          r := fail r "C05" "idempotence: re-applying desired changed the result"
+          if !(noNullOverArr o d) then r := { r with finding := "F-C05-1" }
+      else r := tag r "result-outside-hypothesis"
       if !(res.eqv o) then r := tag r "changed"
   return r
 
